@@ -48,7 +48,7 @@ PROPS = {
     # fit line segments: 0 proto, 1 cost, 2 pred, 3 assigned label, 4 true label, 5 order, 6 drained, 7 predictions, 8 relevant
     "C01": {"modules": [P + "C01", P + "C01Exec"], "streams": ["fit"],
             "relevant": {"fit": [1, 2, 3, 5, 6], "lawfit": None}},
-    "C02": {"modules": [P + "C02", P + "C02Exec"], "streams": ["prim", "fit"],
+    "C02": {"modules": [P + "C02", P + "C02Exec", P + "C02Weight", P + "C02WeightGraph"], "streams": ["prim", "fit"],
             "relevant": {"prim": None, "fit": [0]}},
     "C03": {"modules": [P + "C03"], "streams": ["fit", "semi"], "relevant": {"predict": [0]}},
     "C04": {"modules": [P + "C04", P + "C13"], "streams": ["fit", "cluster", "select"],
@@ -58,7 +58,7 @@ PROPS = {
     "C07": {"modules": [P + "C07"], "streams": ["dist", "fit", "select"], "relevant": {"dist": None}},
     "C09": {"modules": [P + "C09"], "streams": ["fit", "semi", "knnpred"], "relevant": {"predict": [0], "knnq": None}},
     "C15": {"modules": [P + "C15"], "streams": ["semi"], "relevant": {"fit": [0, 1, 2, 3, 4, 5, 6], "lawfit": None}},
-    "C16": {"modules": [P + "C16"], "streams": ["select"], "relevant": {"selmax": None, "selcut": None}},
+    "C16": {"modules": [P + "C16", P + "C16Cut"], "streams": ["select"], "relevant": {"selmax": None, "selcut": None, "ncut": None}},
     "C10": {"modules": [P + "C10"], "streams": ["precomp", "fit"], "relevant": {"fit": [0, 1, 2, 3, 5], "predict": [0]}},
     "C11": {"modules": [P + "C11Map", P + "C11Family", P + "C11Perm", P + "C11Registry"], "streams": ["c11", "fit"], "relevant": {"fit": [0, 1, 2, 3, 5], "predict": [0]}},
     "C17": {"modules": [P + "C17"], "streams": ["learn", "fit"], "relevant": {"swap": None, "best": None, "prune": None, "predict": [1]}},
@@ -190,6 +190,7 @@ def decide(pid, cfg, tier, seed, lean, results, known, t0):
         "not_proved": cfg.get("not_proved", []),
         "streams": [r.summary() for r in results],
         "lean_notes": lean["notes"],
+        "leanchecker": lean.get("leanchecker", "not run (thorough tier only)"),
         "explanation": cfg.get("explanation", "theorems about the Lean model + differential correspondence model/implementation + property oracles on the implementation's outputs"),
         "driver_seconds": round(run_driver.seconds, 2),
     }
